@@ -447,3 +447,11 @@ def run(ctx):
             if match(WANT, amt) is None:
                 bad = bad or "partial liquidation swaps %s" % norm.show(amt)
     ctx.inst("R06.6", "partial-amount", bad is None and n > 0, ex.fn.where(), bad or "%d SwapOutput emissions: size.value * partial_liquidation_ratio / decimals" % n)
+
+
+    # ---------------------------------------------------------------- R06.9
+    # "pays the liquidator exactly half ..." - the liquidator is the caller of THIS Liquidate: the reply pays the address
+    # in the in-flight slot, so the handler must have stored info.sender there on every success path, unconditionally
+    # (same rule as R03.5; round-10 seed C06l kept an address left by an earlier fee-free liquidation)
+    ctx.rule("R06.9", "the liquidator a liquidation reply pays is the sender of this Liquidate (slot written unconditionally with info.sender)", 1)
+    liquidator_is_sender_instance(ctx, em, "R06.9")
